@@ -57,6 +57,10 @@ def _classes():
     boot()
     if MODNAME in sys.modules:
         return sys.modules[MODNAME]
+    from frappy.lib import generalConfig
+    # like a real server: the general default window is NOT zero (frappy's test stubs set it to 0, which would
+    # hide a configured omit_unchanged_within = 0 that is not applied)
+    generalConfig.testinit(**dict(generalConfig._config or {}, omit_unchanged_within=0.1))
     from frappy.core import ArrayOf, BLOBType, Command, FloatRange, IntRange, Parameter, Property, Readable, StringType
     from frappy.errors import HardwareError
     from frappy.rwhandler import CommonWriteHandler
@@ -288,7 +292,7 @@ def project(obj, entries, node=False):
     """state of an accepted module in the vocabulary of ConfigRules.Exp"""
     use_wrapper = not any(e['par'].endswith('_limits') for e in entries)
     st = {k: {} for k in ('start', 'lo', 'hi', 'unit', 'vis', 'group', 'constant', 'readonly', 'exported', 'probes',
-                          'writes', 'mprops')}
+                          'writes', 'mprops', 'window', 'repeat')}
     for p in PARAMS:
         po = obj.parameters[p]
         info = po.for_export()['datainfo']
@@ -306,7 +310,26 @@ def project(obj, entries, node=False):
         st['writes'] = {p: _tick(v) for p, v in obj.writeDict.items() if p in PARAMS}
     else:
         del st['writes']
-    st['mprops'] = {'mp': _tick(obj.mp), 'op': _tick(obj.op), 'export': _tick(bool(obj.export))}
+    st['mprops'] = {'mp': _tick(obj.mp), 'op': _tick(obj.op), 'export': _tick(bool(obj.export)),
+                    'omit_unchanged_within': _tick(obj.omit_unchanged_within)}
+    # Applied(omit_unchanged_within): the derived window of every parameter and its effect on the update stream
+    st['window'] = {p: int(round(obj.parameters[p].omit_unchanged_within * 10)) for p in PARAMS}
+    po, seen = obj.parameters['b'], []
+    saved = po.value, po.timestamp, po.readerror
+    obj.addCallback('b', lambda *a: seen.append(a))      # (callbacks see what the update stream sees, exported or not)
+    try:
+        t0 = 1e9
+        obj.announceUpdate('b', 7 if po.value != 7 else 6, timestamp=t0)     # a change: always delivered
+        del seen[:]
+        res = []
+        for dt in (0.01, 0.3):
+            obj.announceUpdate('b', po.value, timestamp=t0 + dt)
+            res.append(bool(seen))
+            del seen[:]
+        st['repeat'] = res
+    finally:
+        obj.paramCallbacks['b'].pop()
+        po.value, po.timestamp, po.readerror = saved
     obj.probing = True
     for p in PARAMS:      # later range checks (last: they change the value)
         pr = []
@@ -644,7 +667,7 @@ def _cmp_module(beh, got):
             return 'cache of a constant parameter = described constant', {'param': k, 'expected': v,
                                                                           'observed': st['start'].get(k)}
     for field in ('start', 'lo', 'hi', 'unit', 'vis', 'group', 'constant', 'readonly', 'exported', 'probes', 'writes',
-                  'mprops'):
+                  'mprops', 'window'):
         want = exp[field] or {}
         for k, v in want.items():
             have = st[field].get(k)
@@ -652,7 +675,10 @@ def _cmp_module(beh, got):
                 if have is None:
                     return field, {'param': k, 'expected': 'registered for writing', 'observed': sorted(st['writes'])}
             elif have != v:
-                return field, {'param': k, 'expected': v, 'observed': have}
+                name = 'Applied(omit_unchanged_within): parameter window' if field == 'window' else field
+                return name, {'param': k, 'expected': v, 'observed': have}
+    if list(st['repeat']) != list(exp['repeat']):
+        return 'Applied(omit_unchanged_within): repeated update', {'expected': exp['repeat'], 'observed': st['repeat']}
     return None
 
 
